@@ -260,13 +260,57 @@ Proof.
   rewrite app_nth2; rewrite map_length; [|apply le_n]. now rewrite Nat.sub_diag.
 Qed.
 
+(* The access verdict is a function of (rules, request): in a history of requests (or of TCP
+   connections) on one target, the k-th verdict is the verdict of the k-th request alone,
+   whatever was served before (no verdict is remembered per peer).  Trivial in the model; the
+   correspondence run ties it to /repo with histories on one long-lived target. *)
+Lemma nth_map_middle {A B} (f : A -> B) pre x post d :
+  nth (List.length pre) (map f (pre ++ x :: post)) d = f x.
+Proof.
+  rewrite map_app. cbn [map]. rewrite app_nth2; rewrite map_length; [|apply le_n]. now rewrite Nat.sub_diag.
+Qed.
+
+Definition http_access_history (parse_ip : str -> option ipaddr) (split_host : str -> option str)
+           (r : rules) (reqs : list (str * list str)) : list bool :=
+  map (fun q => access_denied_http parse_ip split_host r (fst q) (snd q)) reqs.
+Definition tcp_access_history (r : rules) (peers : list tcp_peer) : list bool :=
+  map (access_denied_tcp r) peers.
+
+Theorem http_access_history_independent parse_ip split_host r pre remote xff post d :
+  nth (List.length pre) (http_access_history parse_ip split_host r (pre ++ (remote, xff) :: post)) d
+  = access_denied_http parse_ip split_host r remote xff.
+Proof. unfold http_access_history. now rewrite nth_map_middle. Qed.
+
+Theorem tcp_access_history_independent r pre p post d :
+  nth (List.length pre) (tcp_access_history r (pre ++ p :: post)) d = access_denied_tcp r p.
+Proof. unfold tcp_access_history. now rewrite nth_map_middle. Qed.
+
 (* ================= the gates ================= *)
 Section Gate.
   Variable parse_ip : str -> option ipaddr.
   Variable split_host : str -> option str.
   Variable creds : Type.
 
-  (* no upstream action unless the target exists, access is not denied and the scheme accepts *)
+  (* the per-request copy Table.Lookup hands out for a redirect route carries the same rules,
+     scheme and code as the table's target *)
+  Lemma copy_rules t : t_rules (table_lookup_copy t) = t_rules t.
+  Proof. unfold table_lookup_copy. now destruct (t_redirect t =? 0). Qed.
+  Lemma copy_auth t : t_auth (table_lookup_copy t) = t_auth t.
+  Proof. unfold table_lookup_copy. now destruct (t_redirect t =? 0). Qed.
+  Lemma copy_redirect t : t_redirect (table_lookup_copy t) = t_redirect t.
+  Proof. unfold table_lookup_copy. now destruct (t_redirect t =? 0). Qed.
+
+  (* ServeHTTP on the table's target, with the copy spelled out *)
+  Lemma serve_http_eq tg (schemes : scheme_table creds) remote xff c :
+    serve_http parse_ip split_host creds (Some tg) schemes remote xff c =
+      if access_denied_http parse_ip split_host (t_rules tg) remote xff then [ERespond 403] else
+      if negb (authorized (t_auth tg) schemes c) then [ERespond 401] else
+      if negb (t_redirect tg =? 0) then [ERedirect (t_redirect tg)] else
+      match split_host remote with None => [ERespond 500] | Some _ => [EUpstream] end.
+  Proof. unfold serve_http. now rewrite copy_rules, copy_auth, copy_redirect. Qed.
+
+  (* no upstream action and no redirect answer unless the target exists, access is not denied
+     and the scheme accepts *)
   Theorem gate_before_upstream_http t (schemes : scheme_table creds) remote xff c :
     In EUpstream (serve_http parse_ip split_host creds t schemes remote xff c) ->
     exists tg, t = Some tg
@@ -274,25 +318,62 @@ Section Gate.
       /\ authorized (t_auth tg) schemes c = true
       /\ exists host, split_host remote = Some host.
   Proof.
-    unfold serve_http. destruct t as [tg|]; [|intros [H|[]]; discriminate].
+    destruct t as [tg|]; [|intros [H|[]]; discriminate]. rewrite serve_http_eq.
     destruct (access_denied_http parse_ip split_host (t_rules tg) remote xff) eqn:Ed;
       [intros [H|[]]; discriminate|].
     destruct (authorized (t_auth tg) schemes c) eqn:Ea; cbn [negb]; [|intros [H|[]]; discriminate].
+    destruct (t_redirect tg =? 0); cbn [negb]; [|intros [H|[]]; discriminate].
     destruct (split_host remote) as [host|] eqn:Es; [|intros [H|[]]; discriminate].
     intros _. exists tg. split; [reflexivity|]. split; [exact Ed|]. split; [exact Ea|]. now exists host.
   Qed.
 
-  (* what the client sees otherwise *)
+  Theorem gate_before_redirect_http t (schemes : scheme_table creds) remote xff c code :
+    In (ERedirect code) (serve_http parse_ip split_host creds t schemes remote xff c) ->
+    exists tg, t = Some tg /\ t_redirect tg = code /\ code <> 0
+      /\ access_denied_http parse_ip split_host (t_rules tg) remote xff = false
+      /\ authorized (t_auth tg) schemes c = true.
+  Proof.
+    destruct t as [tg|]; [|intros [H|[]]; discriminate]. rewrite serve_http_eq.
+    destruct (access_denied_http parse_ip split_host (t_rules tg) remote xff) eqn:Ed;
+      [intros [H|[]]; discriminate|].
+    destruct (authorized (t_auth tg) schemes c) eqn:Ea; cbn [negb]; [|intros [H|[]]; discriminate].
+    destruct (t_redirect tg =? 0) eqn:Er; cbn [negb].
+    - destruct (split_host remote); intros [H|[]]; discriminate.
+    - intros [H|[]]. inversion H; subst code. exists tg. apply N.eqb_neq in Er. repeat split; auto.
+  Qed.
+
+  (* what the client sees otherwise, whether the route forwards or redirects *)
   Theorem denied_gets_403 tg (schemes : scheme_table creds) remote xff c :
     access_denied_http parse_ip split_host (t_rules tg) remote xff = true ->
     serve_http parse_ip split_host creds (Some tg) schemes remote xff c = [ERespond 403].
-  Proof. intros H. unfold serve_http. now rewrite H. Qed.
+  Proof. intros H. rewrite serve_http_eq. now rewrite H. Qed.
 
   Theorem unauthorized_gets_401 tg (schemes : scheme_table creds) remote xff c :
     access_denied_http parse_ip split_host (t_rules tg) remote xff = false ->
     authorized (t_auth tg) schemes c = false ->
     serve_http parse_ip split_host creds (Some tg) schemes remote xff c = [ERespond 401].
-  Proof. intros H A. unfold serve_http. now rewrite H, A. Qed.
+  Proof. intros H A. rewrite serve_http_eq. now rewrite H, A. Qed.
+
+  (* the gate's answer (403 / 401 / passed) does not depend on whether the route forwards or
+     redirects, nor on the redirect code *)
+  Definition gate_answer (ev : list event) : option N :=
+    match ev with
+    | [ERespond 403] => Some 403
+    | [ERespond 401] => Some 401
+    | _ => None
+    end.
+  Definition with_redirect (tg : target) (code : N) : target :=
+    {| t_rules := t_rules tg; t_auth := t_auth tg; t_redirect := code |}.
+
+  Theorem gate_independent_of_redirect tg (schemes : scheme_table creds) remote xff c code code' :
+    gate_answer (serve_http parse_ip split_host creds (Some (with_redirect tg code)) schemes remote xff c)
+    = gate_answer (serve_http parse_ip split_host creds (Some (with_redirect tg code')) schemes remote xff c).
+  Proof.
+    rewrite !serve_http_eq. unfold with_redirect. cbn [t_rules t_auth t_redirect].
+    destruct (access_denied_http parse_ip split_host (t_rules tg) remote xff); [reflexivity|].
+    destruct (authorized (t_auth tg) schemes c); cbn [negb]; [|reflexivity].
+    destruct (code =? 0), (code' =? 0), (split_host remote); reflexivity.
+  Qed.
 
   Theorem gate_before_upstream_tcp t p :
     In EUpstream (serve_tcp t p) ->
@@ -811,14 +892,14 @@ Proof. repeat split; vm_compute; reflexivity. Qed.
 
 (* the gate theorems: a forwarded request exists, and each refusal exists *)
 Example gate_nonvacuous :
-  serve_http ex_parse_ip ex_split_host unit (Some {| t_rules := ex_deny_6666; t_auth := [] |})
+  serve_http ex_parse_ip ex_split_host unit (Some {| t_rules := ex_deny_6666; t_auth := []; t_redirect := 0 |})
              (fun _ => None) (bs "1.1.1.1:1") [bs "8.8.8.8, 1.1.1.1"] tt = [EUpstream] /\
-  serve_http ex_parse_ip ex_split_host unit (Some {| t_rules := ex_deny_6666; t_auth := [] |})
+  serve_http ex_parse_ip ex_split_host unit (Some {| t_rules := ex_deny_6666; t_auth := []; t_redirect := 0 |})
              (fun _ => None) (bs "1.1.1.1:1") [bs "8.8.8.8, 6.6.6.6"] tt = [ERespond 403] /\
-  serve_http ex_parse_ip ex_split_host unit (Some {| t_rules := ex_deny_6666; t_auth := bs "nosuch" |})
+  serve_http ex_parse_ip ex_split_host unit (Some {| t_rules := ex_deny_6666; t_auth := bs "nosuch"; t_redirect := 0 |})
              (fun _ => None) (bs "1.1.1.1:1") [] tt = [ERespond 401] /\
-  serve_tcp (Some {| t_rules := ex_allow_10; t_auth := [] |}) (TCPAddr (Some ip_8888)) = [EClose] /\
-  serve_tcp (Some {| t_rules := ex_allow_10; t_auth := [] |}) (TCPAddr (Some (IP4 168430090))) = [EUpstream].
+  serve_tcp (Some {| t_rules := ex_allow_10; t_auth := []; t_redirect := 0 |}) (TCPAddr (Some ip_8888)) = [EClose] /\
+  serve_tcp (Some {| t_rules := ex_allow_10; t_auth := []; t_redirect := 0 |}) (TCPAddr (Some (IP4 168430090))) = [EUpstream].
 Proof. repeat split; vm_compute; reflexivity. Qed.
 
 (* ================= the reference of the correspondence check = the intended reading ================= *)
@@ -872,3 +953,15 @@ Proof.
   destruct (is_nil allow_opt), (is_nil deny_opt); cbn [orb];
     rewrite ?existsb_sblocks by assumption; reflexivity.
 Qed.
+
+(* a redirect route: the admitted request gets the 3xx, the rejected one 403, the unauthenticated 401 *)
+Example redirect_gate_nonvacuous :
+  serve_http ex_parse_ip ex_split_host unit (Some {| t_rules := ex_deny_6666; t_auth := []; t_redirect := 301 |})
+             (fun _ => None) (bs "1.1.1.1:1") [bs "8.8.8.8, 1.1.1.1"] tt = [ERedirect 301] /\
+  serve_http ex_parse_ip ex_split_host unit (Some {| t_rules := ex_deny_6666; t_auth := []; t_redirect := 301 |})
+             (fun _ => None) (bs "1.1.1.1:1") [bs "8.8.8.8, 6.6.6.6"] tt = [ERespond 403] /\
+  serve_http ex_parse_ip ex_split_host unit (Some {| t_rules := deny_all_rules; t_auth := []; t_redirect := 308 |})
+             (fun _ => None) (bs "1.1.1.1:1") [] tt = [ERespond 403] /\
+  serve_http ex_parse_ip ex_split_host unit (Some {| t_rules := ex_deny_6666; t_auth := bs "nosuch"; t_redirect := 302 |})
+             (fun _ => None) (bs "1.1.1.1:1") [] tt = [ERespond 401].
+Proof. repeat split; vm_compute; reflexivity. Qed.
